@@ -125,6 +125,36 @@ func (p c12) Gen(t *rapid.T, env *Env) (*Case, []*Out) {
 			break
 		}
 	}
+	// an allOf of two inline branches that both pin enums on the same properties (no value in common): the merged enums
+	// are what the branches say, in branch order, whatever order the merge walks the properties in (seeded change s106: a
+	// "values seen so far" set shared by all the lists of one merge)
+	if afs := argFiles(w, args); !stdin && len(afs) > 0 && rapid.IntRange(0, 5).Draw(t, "enummerge") == 0 {
+		for _, f := range afs {
+			if !f.RootObj {
+				continue
+			}
+			props, _ := f.Doc.Get("properties")
+			po, ok := props.(Obj)
+			if !ok {
+				continue
+			}
+			en := func(vals ...any) Obj { return Obj{{"type", "string"}, {"enum", vals}} }
+			b1 := Obj{{"type", "object"}, {"properties", Obj{{"state", en("new", "open")}, {"prio", en("low", "normal")}, {"kind", en("bug", "task")}}}}
+			b2 := Obj{{"type", "object"}, {"properties", Obj{{"kind", en("urgent", "epic")}, {"state", en("urgent", "closed")}, {"prio", en("urgent", "high")}}}}
+			po = append(append(Obj{}, po...), KV{f.Tag + "enm", Obj{{"type", "object"}, {"allOf", []any{b1, b2}}}})
+			nf := *f
+			nf.Doc = append(Obj{}, f.Doc...).Set("properties", po)
+			cp := *w
+			cp.Files = append([]*SFile{}, w.Files...)
+			for i := range cp.Files {
+				if cp.Files[i] == f {
+					cp.Files[i] = &nf
+				}
+			}
+			w = &cp
+			break
+		}
+	}
 	// a JSON object with two keys that differ only in case ("description" and "Description"): encoding/json matches field
 	// names case-insensitively, so both feed one field and the LAST one wins - key order becomes meaningful (known finding
 	// KF-C12-1; the perturbation label says so)
